@@ -573,6 +573,84 @@ fn twins_case(cx: &mut CaseCtx, input: Input) -> CaseResult {
     binding(cx, &p, &texts, &rendered)
 }
 
+// ---- definitions and members named like the last segment of their module ------------------------
+
+pub const LIKE_MODULE_TOTAL: u64 = 5 * 3 * 2;
+
+/// `module A::B` with a definition (or an operation / field) named `B`, followed by further
+/// definitions and a host that refers to them by bare and qualified names: everything is found
+/// under its own scoped name, with or without an outer twin `A::S`.
+fn like_module_case(cx: &mut CaseCtx, input: Input) -> CaseResult {
+    let mut idx = input.index() as usize;
+    let kind = 1 + idx % 5;
+    idx /= 5;
+    let member_shape = idx % 3; // 0: the definition itself is named B; 1: a field named B; 2: an operation named B
+    idx /= 3;
+    let outer_twin = idx % 2 == 1;
+    let named_b = |k: usize| -> DefM {
+        let mut d = x_def(k).unwrap();
+        match &mut d {
+            DefM::Struct(s) => s.name = "B".into(),
+            DefM::Interface(i) => i.name = "B".into(),
+            DefM::Alias(a) => a.name = "B".into(),
+            DefM::Custom(c) => c.name = "B".into(),
+            DefM::Enum(e) => e.name = "B".into(),
+        }
+        d
+    };
+    let first: DefM = match member_shape {
+        0 => named_b(kind),
+        1 => DefM::Struct(StructM {
+            name: "First".into(),
+            fields: vec![
+                FieldM { pre: Prelude::default(), tag: None, name: "B".into(), ty: TypeM::prim("bool") },
+                FieldM { pre: Prelude::default(), tag: None, name: "after".into(), ty: TypeM::prim("int32") },
+            ],
+            ..Default::default()
+        }),
+        _ => DefM::Interface(InterfaceM {
+            name: "First".into(),
+            ops: vec![
+                OpM { pre: Prelude::default(), idempotent: false, name: "B".into(), params: vec![], ret: RetM::None },
+                OpM { pre: Prelude::default(), idempotent: false, name: "after".into(), params: vec![], ret: RetM::None },
+            ],
+            ..Default::default()
+        }),
+    };
+    let s_def = DefM::Struct(StructM { name: "S".into(), ..Default::default() });
+    let host = DefM::Struct(StructM {
+        name: "Host".into(),
+        fields: vec![
+            FieldM { pre: Prelude::default(), tag: None, name: "bare".into(), ty: TypeM::named("S") },
+            FieldM { pre: Prelude::default(), tag: None, name: "qualified".into(), ty: TypeM::seq(TypeM::named("A::B::S")) },
+            FieldM { pre: Prelude::default(), tag: None, name: "global".into(), ty: TypeM::named("::A::B::S").opt() },
+        ],
+        ..Default::default()
+    });
+    let mut files = vec![FileM {
+        path: "string-0".into(),
+        file_attrs: vec![],
+        module: Some(ModuleM { attrs: vec![], path: vec!["A".into(), "B".into()] }),
+        defs: vec![first, s_def, host],
+    }];
+    if outer_twin {
+        files.push(FileM {
+            path: "string-1".into(),
+            file_attrs: vec![],
+            module: Some(ModuleM { attrs: vec![], path: vec!["A".into()] }),
+            defs: vec![DefM::Struct(StructM { name: "S".into(), ..Default::default() })],
+        });
+    }
+    let mut p = Program { files };
+    p.fill_effective_values();
+    cx.nontrivial = true;
+    cx.label("named-like-the-module");
+    let rendered: Vec<Rendered> = crate::render::render_program(&p, &[], false);
+    let texts: Vec<String> = rendered.iter().map(|r| r.text.clone()).collect();
+    cx.sample_with(|| json!({"files": texts}));
+    binding(cx, &p, &texts, &rendered)
+}
+
 // ---- alias chains ---------------------------------------------------------------------------
 
 const CHAIN_MODULES: [&[&str]; 4] = [&["A"], &["A", "B"], &["D"], &["A", "B", "C"]];
@@ -736,7 +814,7 @@ impl Check for C03 {
         "C03"
     }
     fn rule(&self) -> String {
-        format!("families: scopes = all {SCOPES_TOTAL} arrangements of module levels A, A::B, A::B::C (also renamed to A, A::A, A::A::A and A, A::B, A::B::A, so that inner modules repeat an outer name) x definition `X` of kind none/struct/interface/alias/custom/enum at each level x referencing level x 12 spellings x 8 positions (field, parameter, return, sequence element, dictionary value, alias target, interface base, enum underlying) x 6 file orders x member-named-like-the-type (strided in the quick tier); positional = every (only base, second base, enum underlying type) x (primitive, optional primitive, sequence, dictionary, result, struct, interface, custom type): bound or reported, never dropped; twins = two modules each defining `X` and a host referring to it by the same relative spelling (8 positions x 5 kinds x 3 module shapes x 2 file orders): each binds to its own; escaped-primitives = every primitive reached by name (`\\int64`, `::int64`), bare and shadowed by a definition of that name; alias-chains = proptest choice sequences -> chains of 1..4 aliases over 4 modules with an attribute per link, shared short names and every spelling; programs = random larger programs. Oracle: the reference resolver (outward scope search, '::' global, alias flattening with attribute accumulation): resolves <=> accepted, observed bindings == expected, a miss / wrong kind / loop is reported with an admissible code inside the offending reference's text, never silently bound elsewhere; every definition, field, enumerator and operation is retrievable through Ast::find_element. Non-trivial = shadowed at >= 2 levels, crosses files, or goes through an alias")
+        format!("families: scopes = all {SCOPES_TOTAL} arrangements of module levels A, A::B, A::B::C (also renamed to A, A::A, A::A::A and A, A::B, A::B::A, so that inner modules repeat an outer name) x definition `X` of kind none/struct/interface/alias/custom/enum at each level x referencing level x 12 spellings x 8 positions (field, parameter, return, sequence element, dictionary value, alias target, interface base, enum underlying) x 6 file orders x member-named-like-the-type (strided in the quick tier); positional = every (only base, second base, enum underlying type) x (primitive, optional primitive, sequence, dictionary, result, struct, interface, custom type): bound or reported, never dropped; twins = two modules each defining `X` and a host referring to it by the same relative spelling (8 positions x 5 kinds x 3 module shapes x 2 file orders): each binds to its own; like-module = a definition / field / operation named like the last segment of its module, followed by more definitions and references to them (with and without an outer twin); escaped-primitives = every primitive reached by name (`\\int64`, `::int64`), bare and shadowed by a definition of that name; alias-chains = proptest choice sequences -> chains of 1..4 aliases over 4 modules with an attribute per link, shared short names and every spelling; programs = random larger programs. Oracle: the reference resolver (outward scope search, '::' global, alias flattening with attribute accumulation): resolves <=> accepted, observed bindings == expected, a miss / wrong kind / loop is reported with an admissible code inside the offending reference's text, never silently bound elsewhere; every definition, field, enumerator and operation is retrievable through Ast::find_element. Non-trivial = shadowed at >= 2 levels, crosses files, or goes through an alias")
     }
     fn assumptions(&self) -> Vec<String> {
         vec![
@@ -774,6 +852,7 @@ impl Check for C03 {
             Family::enumerate("scopes", SCOPES_TOTAL, tier.pick(7, 1), scopes_case),
             Family::enumerate("positional", POSITIONAL_TOTAL, 1, positional_case),
             Family::enumerate("twins", TWINS_TOTAL, 1, twins_case),
+            Family::enumerate("like-module", LIKE_MODULE_TOTAL, 1, like_module_case),
             Family::enumerate("escaped-primitives", ESCAPED_PRIMITIVES_TOTAL, 1, escaped_primitive_case),
             Family::bytes("alias-chains", 64, tier.pick(6_000, 150_000), chains_case),
             Family::bytes("programs", 600, tier.pick(1_500, 30_000), move |cx, i| programs_case(cx, i, &cfg)),
